@@ -7,8 +7,8 @@ soft hyphens under `hyphens: manual|none`, or `auto` without a language), `first
 box holds one text box and no float.
 
 Mirrors the Python branch for branch, quirks included (the second-line break point made relative
-twice, `break_point or -1`, the text cut to the heuristic prefix, a negative width turned into an
-unconstrained Pango layout in step 5).  Python failure points are explicit (`Except PyErr`).
+twice, `break_point or -1`, the text cut to the heuristic prefix; since fix 3c674e2 a negative width is
+clamped to 0 before the step-5 re-wrap).  Python failure points are explicit (`Except PyErr`).
 No Mathlib: linked into the driver.
 -/
 import WpModel.Model.Pango
@@ -53,6 +53,13 @@ def WS.layoutWrap (w : WS) : Bool := Gen.LineBreak.createLayoutWrapValues.contai
 def WS.skipFirst (w : WS) : Bool := Gen.LineBreak.skipFirstWsValues.contains w.css
 def WS.removeLast (w : WS) : Bool := Gen.LineBreak.removeLastWsValues.contains w.css
 def WS.alignCollapse (w : WS) : Bool := Gen.LineBreak.textAlignCollapseValues.contains w.css
+/-- `can_break_inside`: `text_wrap = box.style['white_space'] in ('normal', 'pre-wrap', 'pre-line')` -/
+def WS.breakInside (w : WS) : Bool := Gen.LineBreak.canBreakInsideWrapValues.contains w.css
+/-- `split_inline_box`: `box.style['white_space'] in ('pre', 'nowrap')` → no break between two children -/
+def WS.noBreakBetween (w : WS) : Bool := Gen.LineBreak.inlineNoBreakValues.contains w.css
+/-- `preferred.inline_line_widths`: its own `space_collapse` / `text_wrap` -/
+def WS.prefCollapse (w : WS) : Bool := Gen.LineBreak.preferredCollapseValues.contains w.css
+def WS.prefWrap (w : WS) : Bool := Gen.LineBreak.preferredWrapValues.contains w.css
 /-- `overflow_wrap in ('anywhere', 'break-word')`: Pango's automatic hyphens are switched off. -/
 def OW.wordBreaking (o : OW) : Bool := Gen.LineBreak.wordBreakingValues.contains o.css
 
@@ -147,11 +154,11 @@ def draftFull (st : Style) (text : Text) (original : MaxW) : Draft :=
   let lay := createLayout st text original
   { text := text, short := text, lay := lay, line := firstLine st.fs lay }
 
-/-- Step 5: the layout re-wrapped at character level (`set_text(text)`, `set_width(int(max_width *
-TO_UNITS))` — a negative value means "no width" to Pango —, `PANGO_WRAP_CHAR`). -/
+/-- Step 5: the layout re-wrapped at character level (`set_text(text)`,
+`set_width(int(max(0, max_width) * TO_UNITS))` — a negative available width is clamped to 0 like in
+`create_layout`, so Pango never sees the negative value that means "no width" —, `PANGO_WRAP_CHAR`). -/
 def step5Layout (lay : Layout) (text : Text) (W : Rat) : Layout :=
-  let u := truncZ (W * 1024)
-  { lay.setText text with width := if u < 0 then none else some ((u : Rat) / 1024), wrapChar := true }
+  { lay.setText text with width := some ((truncZ (max 0 W * 1024) : Rat) / 1024), wrapChar := true }
 
 /-- Step 5: `resume_index = index or first_line.length`, `None` at the end of the text. -/
 def step5Resume (line : Line) (text : Text) : Option Nat :=
@@ -307,24 +314,37 @@ inductive IBox where
   | text (x w : Rat) (spaces : Nat)
   /-- `InlineBox` / `LineBox`: `position_x`, `width`, `direction == 'rtl'`, children -/
   | inl (x w : Rat) (rtl : Bool) (kids : List IBox)
-  /-- any other box (atomic inline, out-of-flow): `position_x`, `is_in_normal_flow()` -/
-  | atom (x : Rat) (inFlow : Bool)
+  /-- any other box (atomic inline-level box — inline-block, inline table / flex / grid, replaced — or
+  out-of-flow box): `position_x`, `is_in_normal_flow()`, and its own descendants when it is a
+  `ParentBox` (their spaces are not the line's: the box is only translated) -/
+  | atom (x : Rat) (inFlow : Bool) (kids : List IBox)
   deriving Repr, Inhabited
 
 mutual
-/-- `count_expandable_spaces(box)` -/
+/-- `count_expandable_spaces(box)`: text boxes, and recursively `LineBox` / `InlineBox` only -/
 def countSpaces : IBox → Nat
   | .text _ _ s => s
   | .inl _ _ _ kids => countSpacesL kids
-  | .atom _ _ => 0
+  | .atom _ _ _ => 0
 def countSpacesL : List IBox → Nat
   | [] => 0
   | b :: bs => countSpaces b + countSpacesL bs
 end
 
 def IBox.inFlow : IBox → Bool
-  | .atom _ f => f
+  | .atom _ f _ => f
   | _ => true
+
+mutual
+/-- `box.translate(dx)`: the box and all its descendants -/
+def IBox.translate (dx : Rat) : IBox → IBox
+  | .text x w s => .text (x + dx) w s
+  | .inl x w rtl kids => .inl (x + dx) w rtl (IBox.translateL dx kids)
+  | .atom x f kids => .atom (x + dx) f (IBox.translateL dx kids)
+def IBox.translateL (dx : Rat) : List IBox → List IBox
+  | [] => []
+  | b :: bs => b.translate dx :: IBox.translateL dx bs
+end
 
 mutual
 /-- `add_word_spacing(context, box, justification_spacing, x_advance)` → (box, x_advance). -/
@@ -334,7 +354,8 @@ def addWordSpacing (js : Rat) : IBox → Rat → IBox × Rat
   | .inl x w rtl kids, adv =>
     let (kids', adv') := if rtl then addWordSpacingR js kids adv else addWordSpacingL js kids adv
     (.inl (x + adv) (w + (adv' - adv)) rtl kids', adv')
-  | .atom x f, adv => (.atom (x + adv) f, adv)
+  -- atomic inline-level box: `box.translate(x_advance, 0)`
+  | .atom x f kids, adv => (.atom (x + adv) f (IBox.translateL adv kids), adv)
 /-- the `for child in children` loop, first child first (`direction: ltr`) -/
 def addWordSpacingL (js : Rat) : List IBox → Rat → List IBox × Rat
   | [], adv => ([], adv)
